@@ -76,6 +76,11 @@ Definition db_snapshot (m : seqdb) : list (str * N) := m.
 Definition db_load (recs : list (str * N)) : seqdb :=
   fold_left (fun m kv => sm_put str_cmp m (fst kv) (snd kv)) recs [].
 
+(** InstallSnapshot on a RUNNING node: the records are loaded over the live counters
+    (load_snapshot_record inserts, i.e. overwrites) *)
+Definition db_install (m : seqdb) (recs : list (str * N)) : seqdb :=
+  fold_left (fun m kv => sm_put str_cmp m (fst kv) (snd kv)) recs m.
+
 (** * SeqRange / SeqGroup *)
 Record srange := mkRange { r_start : N; r_len : N; r_cur : N }.
 
